@@ -818,6 +818,17 @@ class Engine:
             return binop("Sub", v.args[2], v.args[1], "usize")
         if op == "vec_new":
             return Int(0)
+        if op in ("collected", "cloned_iter"):
+            return self.length(state, v.args[0])
+        if op == "mapped":
+            return self.length(state, v.args[0])
+        if op == "range_iter" or (op == "agg" and v.args[0].endswith("ops::Range") and len(v.args) == 3):
+            lo, hi = (v.args[0], v.args[1]) if op == "range_iter" else (v.args[1], v.args[2])
+            if lo.op == "int" and hi.op == "int":
+                return Int(max(0, hi.args[0] - lo.args[0]))
+            return mk("range_len", lo, hi)
+        if op == "iter":
+            return self.length(state, v.args[0])
         if op == "owf":
             return v.args[2]       # Strobe output operations fill the whole buffer
         if op == "elem" and v.args[0].op == "chunks" and v.args[0].args[2] == "chunks_exact":
